@@ -78,4 +78,16 @@ def sentHeaderFor (p : Proto) (kind : StreamKind) : Bytes :=
   | .connect => if kind = .unary then Gen.hdrConnectUnaryEncoding else Gen.hdrConnectStreamEncoding
   | _ => Gen.hdrGrpcEncoding
 
+/-! ### registering an algorithm (`compressionOption.applyTo…`, fix F22) -/
+
+/-- `WithCompression(name, newDecompressor, newCompressor)` applied to the list of registered
+    names: an empty name or a nil constructor makes the option a no-op (as documented); after the
+    fix `newCompressionPool` returns nil then, which is what `applyToHandler` tests. -/
+def registerCompression (reg : List Bytes) (name : Bytes) (hasDecompressor hasCompressor : Bool) : List Bytes :=
+  if name = [] ∨ !hasDecompressor ∨ !hasCompressor then reg else reg ++ [name]
+
+/-- before the fix the pool was never nil: only the empty name was skipped -/
+def registerCompressionPinned (reg : List Bytes) (name : Bytes) (_hasDecompressor _hasCompressor : Bool) : List Bytes :=
+  if name = [] then reg else reg ++ [name]
+
 end ConnectModel
